@@ -1,11 +1,13 @@
 import Gallia.Lib.Proto
 import Gallia.Model.Hsfz
+import Gallia.Model.HsfzSys
 open Gallia Gallia.Proto Gallia.Hsfz Gallia.Framing
 
 structure DSt where
   cfg : Cfg := ⟨0xf4, 0x10, 1000⟩
   drainYields : Bool := false
   sys : Sys := {}
+  ssys : HsfzSys.Sys := {}
 
 def hex2 (b : UInt8) : String := hexStr [b]
 
@@ -41,6 +43,15 @@ def showSys (s : Sys) : String :=
   let d := semi (s.done.map fun (t, r) => s!"{t}:{showRes r}")
   s!"c={if s.closed then 1 else 0} t={s.now} cl={showClient s.client} q={q} out={o} done={d}"
 
+def showTr : HsfzSys.Tr → String
+  | .rx w => showWire w
+  | .reply => "reply"
+  | .ended => "ended"
+
+/-- whole-execution system: the connection report plus connected flag, bytes waiting for the reader task, reader trace -/
+def showSSys (s : HsfzSys.Sys) : String :=
+  s!"conn={if s.connected then 1 else 0} pre={hexOrDash s.pre} tr={semi (s.tr.map showTr)} {showSys s.core}"
+
 def optNat (w : String) : Option (Option Nat) :=
   if w == "none" then some none else w.toNat?.map some
 
@@ -48,11 +59,34 @@ def stepD (st : DSt) (line : String) : DSt × String :=
   let run (op : Op) : DSt × String :=
     let s' := execOp st.cfg (asyncioYields st.drainYields) st.sys op
     ({ st with sys := s' }, showSys s')
+  let srun (op : HsfzSys.Op) : DSt × String :=
+    let s' := HsfzSys.execOp st.cfg (asyncioYields st.drainYields) st.ssys op
+    ({ st with ssys := s' }, showSSys s')
   match words line with
+  | ["sreset", a, b, t, y] =>
+    match a.toNat?, b.toNat?, optNat t with
+    | some a, some b, some t =>
+      ({ cfg := HsfzSys.cfgOfUri (UInt8.ofNat a) (UInt8.ofNat b) t, drainYields := y == "1", sys := {}, ssys := {} }, "ok")
+    | _, _, _ => (st, "bad-op")
+  | ["sfeed", h] => match parseHex h with
+    | some b => srun (.feed b)
+    | none => (st, "bad-op")
+  | ["sconnect"] => srun .connect
+  | ["swrite", h, t] => match parseHex h, optNat t with
+    | some b, some t => srun (.write b t)
+    | _, _ => (st, "bad-op")
+  | ["sread", t] => match optNat t with
+    | some t => srun (.read t)
+    | none => (st, "bad-op")
+  | ["sclose"] => srun .close
+  | ["seof"] => srun .eof
+  | ["sadv", d] => match d.toNat? with
+    | some d => srun (.advance d)
+    | none => (st, "bad-op")
   | ["reset", a, b, t, y] =>
     match a.toNat?, b.toNat?, t.toNat? with
     | some a, some b, some t =>
-      ({ cfg := ⟨UInt8.ofNat a, UInt8.ofNat b, t⟩, drainYields := y == "1", sys := {} }, "ok")
+      ({ cfg := ⟨UInt8.ofNat a, UInt8.ofNat b, t⟩, drainYields := y == "1", sys := {}, ssys := {} }, "ok")
     | _, _, _ => (st, "bad-op")
   | ["feed", h] => match parseHex h with
     | some b => run (.feed b)
